@@ -290,6 +290,17 @@ func runC04(c *Ctx) {
 	}
 	nonNil := ir.Edge{From: guard.Block(), Succ: 1 - nilSucc}
 	nilEdge := ir.Edge{From: guard.Block(), Succ: nilSucc}
+	// apart from the nil-spec return, the function returns only after the whole request was
+	// walked: a verdict given earlier (e.g. on a pre-check of the names) cannot name every miss
+	if s.loop != nil {
+		for i, ret := range ir.NormalReturns(fn) {
+			if ir.OnlyViaEdge(fn, ret, nilEdge) {
+				continue
+			}
+			r.Check("C04.3", fmt.Sprintf("return-after-full-walk:%d", i), ir.OnlyViaEdge(fn, ret, s.loop.Exit), c.pos(ret),
+				"a return other than the nil-OCI-spec one is reached only after the loop that looks up every requested name has finished")
+		}
+	}
 	uses := 0
 	if refs := s.oci.Referrers(); refs != nil {
 		for _, u := range *refs {
